@@ -1,2 +1,5 @@
 import DinoProofs.Properties.C13
 import DinoProofs.Properties.C03
+import DinoProofs.Properties.C06
+import DinoProofs.Properties.C15
+import DinoProofs.Lemmas.SH
